@@ -14,14 +14,16 @@ import random
 
 from .. import common, identlib
 from ..gen import cfggen, edits
-from ..translate import hashflags
+from ..translate import hashflags, hashsrc
 
 PROP = "C14"
-MODULES = ["XpmVerif.Properties.C14"]
+MODULES = ["XpmVerif.Properties.C14", "XpmVerif.Properties.HashSrc"]
 
 
 def prove(ctx):
-    msgs = [hashflags.generate(common.REPO, common.LEAN, probe=identlib.loop_flag_probe(ctx))]
+    msgs = [hashflags.generate(common.REPO, common.LEAN, probe=identlib.loop_flag_probe(ctx)), hashsrc.generate(common.REPO, common.LEAN)]
+    ctx.notes.append(f"translator(hashsrc): {msgs[1][1]}")
+    ctx.count("translator", "hashsrc:" + ("translated" if msgs[1][1].startswith("translated") else "fallback"))
     common.check_proofs(ctx, MODULES, translate_msgs=msgs)
 
 
